@@ -203,6 +203,31 @@ theorem acceptBytes_accepted_exact (n : Nat) (blk : Option String) (p : Prog) :
     rw [List.prefix_iff_eq_take, hlen] at h3
     exact h3
 
+/-- **The call-index writer of the harness, exactly.**  Let `T` be the list of (non-empty)
+`write_all` calls the full render makes on its output (`traceDev`; their concatenation is the
+full output).  A writer that refuses its `k`-th `write` call (0-based) and every later one has
+accepted exactly the first `k` of them when `render_to` returns, and `render_to` returns the I/O
+error iff there was a `k`-th call (`k < |T|`); otherwise it ends like the render into a `Vec`. -/
+theorem failAtCall_exact (k : Nat) (p : Prog) :
+    (renderTo (userDev (failAtCall k)) none p (Sink.fresh 0)).2.accepted
+      = ((renderTo traceDev none p []).2.take k).flatten ∧
+    ((renderTo (userDev (failAtCall k)) none p (Sink.fresh 0)).1 = .io ↔ k < (renderTo traceDev none p []).2.length) ∧
+    (renderTo traceDev none p []).2.flatten = (renderTo vecDev none p []).2 ∧
+    (¬ k < (renderTo traceDev none p []).2.length →
+      (renderTo (userDev (failAtCall k)) none p (Sink.fresh 0)).1 = (renderTo vecDev none p []).1) := by
+  simp only [renderTo]
+  obtain ⟨tv1, tv2⟩ := trace_vec p St.fresh [] [] rfl
+  have hne := vec_ne_io p St.fresh []
+  have h0 : CallR k (Sink.fresh 0) [] := ⟨rfl, rfl, rfl, Nat.zero_le _⟩
+  rcases sim2 _ _ _ _ (call_stepOk k) (call_refDev k) p St.fresh (Sink.fresh 0) [] h0 with
+    ⟨e1, _, _, _, e3, e4⟩ | ⟨e1, _, e2, e3⟩
+  · refine ⟨?_, ?_, tv2, fun _ => e1.trans tv1⟩
+    · rw [e3, List.take_of_length_le e4]
+    · constructor
+      · intro h; rw [e1, tv1] at h; exact absurd h hne
+      · intro h; exact absurd h (Nat.not_lt.2 e4)
+  · exact ⟨e2, ⟨fun _ => e3, fun _ => e1⟩, tv2, fun h => absurd e3 h⟩
+
 /-! ## The hypotheses are satisfiable, and the statements bite -/
 
 example : NeverFails recorder := fun _ buf h => by
